@@ -2878,4 +2878,23 @@ theorem final_segments (cov ins : Bool) (o : Obj) (h : Bytes) (res : LayoutRes)
           have := f5.fresh k s hgB hg2 hs2 ho
           omega
 
+/-- every final section is the original section at the same position, up to `addr`/`offset` -/
+theorem final_orig (o : Obj) (h : Bytes) (res : LayoutRes) (hl : layoutOf o h = .ok (some res))
+    (hnw : layoutNW o h = true) (hn : o.secs.length < 65536)
+    (h0 : ∀ (i : Nat) (s : SecBuf), o.secs[i]? = some s → s.Occ → s.index ≠ 0)
+    (k : Nat) (s' : SecBuf) (hk : res.secs[k]? = some s') :
+    ∃ s0, o.secs[k]? = some s0 ∧ SecBuf.Moved s0 s' := by
+  obtain ⟨-, hstep2, -, -⟩ := layout_packed o h res hl hnw hn h0
+  obtain ⟨s2, hs2, hm2, -, -⟩ := layout_final_desc o h res hl hnw k s' hk
+  have hlt : k < o.secs.length := by
+    have hlen : res.lay2.secs.length = o.secs.length := hstep2.len
+    rw [← hlen]
+    rcases Nat.lt_or_ge k res.lay2.secs.length with h' | h'
+    · exact h'
+    · rw [List.getElem?_eq_none h'] at hs2; exact nomatch hs2
+  have hs0 : (lay0Of o res.pos0).secs[k]? = some o.secs[k] := List.getElem?_eq_getElem hlt
+  obtain ⟨s2', hs2', hm⟩ := hstep2.moved k _ hs0
+  rw [hs2] at hs2'; simp only [Option.some.injEq] at hs2'; subst hs2'
+  exact ⟨o.secs[k], List.getElem?_eq_getElem hlt, hm.trans hm2⟩
+
 end ElfioVerif
